@@ -648,11 +648,20 @@ class WorkerTap(E1Prop):
         # judged the moment process_task returns (one delivery may run
         # several jobs before the op is over)
         w.on_job_done = lambda rec: self.check_now(w, rec)
+        # a job that never comes back (the worker blocked for good) is
+        # told apart from a slow one by a generous wall-clock watchdog
+        w.job_alarm = 150
 
     def check_now(self, w, rec):
         if rec['killed']:
             return
         w.probe('real-job:%s' % (rec['job'].split(':')[0]))
+        if rec['crashed'] and rec['crashed'].startswith('SimHang'):
+            raise Violation(
+                'C13', 'C13:worker-stuck',
+                'the worker did not come back from job %s within %d s of '
+                'wall clock (real jobs take a few seconds): every later '
+                'request waits for ever' % (rec['job'], w.job_alarm), {})
         if rec['crashed']:
             raise Violation(
                 'C13', 'C13:worker-died:%s' % rec['crashed'].split(':')[0],
